@@ -46,7 +46,7 @@ UNITS = {
 PLAN = {
     "C01": dict(
         verus=dict(quick=["feat.of64", "featp"], thorough=["feat.of64", "feat.f64", "featp"]),
-        kani=dict(quick=[], thorough=[]),
+        kani=dict(quick=[], thorough=["roll_bounded"]),
         level="proof",
     ),
     "C02": dict(
@@ -95,18 +95,18 @@ PLAN["C16"] = dict(
 )
 
 PLAN["C03"] = dict(
-    verus=dict(quick=["cmp"], thorough=["cmp"]),
-    kani=dict(quick=[], thorough=[]),
+    verus=dict(quick=["cmp", "feat.of64"], thorough=["cmp", "feat.of64", "feat.f64"]),
+    kani=dict(quick=[], thorough=["roll_bounded"]),
     level="proof",
 )
 
 PLAN["C05"] = dict(
-    verus=dict(quick=["feat.of64", "cmp"], thorough=["feat.of64", "feat.f64", "cmp"]),
-    kani=dict(quick=[], thorough=[]),
+    verus=dict(quick=["feat.of64", "featp", "cmp"], thorough=["feat.of64", "feat.f64", "featp", "cmp"]),
+    kani=dict(quick=["roll_bounded"], thorough=["roll_bounded"]),
     level="proof",
 )
 PLAN["C06"] = dict(
-    verus=dict(quick=["feat.of64", "cmp", "map.f64"], thorough=["feat.of64", "feat.f64", "cmp", "map.f64", "map.of64"]),
+    verus=dict(quick=["feat.of64", "featp", "cmp", "map.f64"], thorough=["feat.of64", "feat.f64", "featp", "cmp", "map.f64", "map.of64"]),
     kani=dict(quick=[], thorough=[]),
     level="proof",
 )
@@ -189,11 +189,11 @@ DETAILS = {
                 assumptions=["A-REAL", "A-ITER", "A-LEN", "A-MONO", "A-EXTRACT", "A-TOOLS"]),
     "C02": dict(text=_V + ": trace and stored-exactly-once postconditions of the caller-buffer drivers rolling_apply_to, rolling2_apply_to, rolling_apply_idx_to, rolling2_apply_idx_to, rolling_custom_to, and of the Option-dispatching / iterator-form drivers rolling_apply, rolling2_apply, rolling_apply_idx (leading Nones, FIFO removal column, delivery to the buffer or as a new container); the trait contract every client unit relies on is discharged by these functions.",
                 note="the stateful Iterator::map + trusted collector of the iterator forms is modelled eagerly (A-ITER, rollmodel.rs); the Vec fast paths of impl_vec1! and rolling2_apply_idx (iterator form) are not under contract",
-                not_covered=["Vec / slice fast paths of impl_vec1!", "rolling2_apply_idx iterator form", "rolling_custom / rolling_custom_iter iterator forms"],
+                not_covered=["Vec fast paths rolling_custom / rolling2_apply_idx of impl_vec1! (rolling_apply, rolling2_apply, rolling_apply_idx are under contract)", "rolling2_apply_idx iterator form (bounded only)", "rolling_custom / rolling_custom_iter iterator forms"],
                 assumptions=["A-ITER", "A-EXTRACT", "A-TOOLS"]),
     "C03": dict(text=_V + ": cached-extreme invariants and window-function postconditions of ts_vmin/vmax/vargmin/vargmax_to (exact).",
-                note="ts_vrank, ts_vzscore, ts_vminmaxnorm are not under contract",
-                not_covered=["ts_vrank", "ts_vzscore", "ts_vminmaxnorm"], assumptions=["A-REAL (comparisons only)", "A-LEN", "A-EXTRACT", "A-TOOLS"]),
+                note="ts_vzscore_to is in the feat units; ts_vminmaxnorm is checked by the bounded rolling backstop only (thorough tier); ts_vrank is not under contract",
+                not_covered=["ts_vrank", "ts_vminmaxnorm (bounded only)"], assumptions=["A-REAL (comparisons only)", "A-LEN", "A-EXTRACT", "A-TOOLS"]),
     "C04": dict(text=_V + ": ts_vcov_to / ts_vcorr_to (pairwise-complete sums, textbook forms) and the trend family ts_vreg / vtsf / vreg_slope / vreg_intercept_to against the OLS closed forms.",
                 note="A-REAL; residual statistics and the regx family are not under contract",
                 not_covered=["ts_vreg_resid_mean / resid_std / resid_skew", "ts_vregx_* family"], assumptions=["A-REAL", "A-LEN", "A-MONO", "A-EXTRACT", "A-TOOLS"]),
@@ -230,7 +230,7 @@ DETAILS = {
                 note="A-CHRONO: month shift and calendar fields are chrono's (abstract); the inverse law is stated for durations that are whole units of the date-time's resolution",
                 not_covered=["Time::from_* / Timelike getters beyond the Kani round trip", "Div<TimeDelta>"], assumptions=["A-CHRONO", "A-EXTRACT", "A-TOOLS"]),
     "C18": dict(text=_V + ": TimeDelta::parse and its helpers never panic and return a value or an error for every string (abstract string model, unbounded length).",
-                note="the byte / UTF-8 layer of str is a model (R19)", not_covered=["chrono-delegating parsers", "strftime round trip", "term-sum value of parse"], assumptions=["string model", "A-EXTRACT", "A-TOOLS"]),
+                note="the byte / UTF-8 layer of str is a model (R19)", not_covered=["chrono-delegating parsers", "strftime round trip", "term sum of parse beyond: each term added exactly (add_term / add_months) and fixed part == seconds + sub-second terms"], assumptions=["string model", "A-EXTRACT", "A-TOOLS"]),
     "C19": dict(text=_V + ": range / linspace counts and elements, Linspace next / next_back / size_hint; Kani (BOUNDED band of start / end / step) decides both step directions on the real code.",
                 note="descending range is decided by Kani only (Verus leaves signed division by a negative divisor unspecified)", not_covered=["float range count beyond A-REAL"],
                 assumptions=["A-REAL", "A-EXTRACT", "A-TOOLS"]),
